@@ -937,6 +937,13 @@ func (fv *FV) stdlibCall(st *State, call *ast.CallExpr, fn *types.Func, full str
 		fv.assume(st, fmt.Sprintf("(and (= (mp.val %s) (mp.val %s)) (= (mp.dom %s) (mp.dom %s)) (ite (= (mp.ref %s) 0) (= (mp.ref %s) 0) (> (mp.ref %s) %s)))", r.T, m.T, r.T, m.T, m.T, r.T, r.T, fv.allocCur(st)))
 		fv.allocAbove(st, fmt.Sprintf("(mp.ref %s)", r.T))
 		return one(r)
+	case "maps.Equal":
+		a, b := args[0], args[1]
+		ks, _ := mapSorts(a.S)
+		if ks == "" || a.S != b.S {
+			return nil, false
+		}
+		return one(Val{T: fmt.Sprintf("(and (= (mp.dom %s) (mp.dom %s)) (forall ((k!me %s)) (=> (select (mp.dom %s) k!me) (= (select (mp.val %s) k!me) (select (mp.val %s) k!me)))))", a.T, b.T, ks, a.T, a.T, b.T), S: "Bool", Go: t})
 	case "strings.HasPrefix":
 		return one(Val{T: fmt.Sprintf("(s.prefix %s %s)", args[0].T, args[1].T), S: "Bool", Go: t})
 	case "strings.HasSuffix":
